@@ -3,6 +3,7 @@ package main
 import (
 	"context"
 	"fmt"
+	"github.com/tdakkota/docker-logql/internal/logql"
 	"math/rand"
 	"time"
 
@@ -16,6 +17,9 @@ import (
 type c04Case struct {
 	Srcs  [][]int64 `json:"srcs"`  // per container: timestamps (ns) of its records, in log order
 	Order []int     `json:"order"` // completion order of the concurrent opens (container indices)
+	// Warm: the same Querier first serves a selector that matches the first container only (a query with two
+	// selectors does that); the merge of all containers afterwards must not depend on it
+	Warm bool `json:"warm,omitempty"`
 }
 
 func tsText(ns int64) string { return time.Unix(0, ns).UTC().Format(time.RFC3339Nano) }
@@ -41,6 +45,17 @@ func c04Fake(t c04Case, order []int) *fakeDocker {
 func c04Merge(t c04Case, order []int) (Sexp, *fakeDocker) {
 	fd := c04Fake(t, order)
 	q, _ := dockerlog.NewQuerier(fd)
+	if t.Warm && len(t.Srcs) > 0 {
+		saved := fd.Order
+		fd.Order = nil
+		if w, err := q.SelectLogs(context.Background(), 0, 1<<62, logqlengine.SelectLogsParams{Labels: []logql.LabelMatcher{{Label: "container_id", Op: logql.OpEq, Value: "id0"}}}); err == nil {
+			var rec logstorage.Record
+			for w.Next(&rec) {
+			}
+			_ = w.Close()
+		}
+		fd.Order = saved
+	}
 	it, err := q.SelectLogs(context.Background(), 0, 1<<62, logqlengine.SelectLogsParams{})
 	if err != nil {
 		return L(A("err"), A(errClassOf(err))), fd
@@ -82,6 +97,7 @@ func c04Gen(r *rand.Rand) c04Case {
 		t.Srcs = append(t.Srcs, src)
 	}
 	t.Order = r.Perm(n)
+	t.Warm = r.Intn(3) == 0
 	return t
 }
 
